@@ -2438,15 +2438,13 @@ impl LineBuf {
 		match motion {
 			MotionCmd(_,Motion::NotGlobal(ref addr, ref pattern)) |
 			MotionCmd(_,Motion::Global(ref addr, ref pattern)) => {
+				// The constraining range is evaluated like any other ex range (ordered, clipped to the buffer)
 				let (start_line,end_line) = match **addr {
-					Motion::Line(ref n) => {
-						let line_no = self.eval_line_addr(n.clone()).unwrap();
-						(line_no,line_no)
-					}
-					Motion::LineRange(ref s,ref e) => {
-						let start_ln = self.eval_line_addr(s.clone()).unwrap();
-						let end_ln = self.eval_line_addr(e.clone()).unwrap();
-						(start_ln,end_ln)
+					Motion::Line(_) |
+					Motion::LineRange(_,_) => match self.eval_motion(None, MotionCmd(1,(**addr).clone())) {
+						MotionKind::Line(line_no) => (line_no,line_no),
+						MotionKind::LineRange(start_ln,end_ln) => (start_ln,end_ln),
+						_ => (0,self.last_line_number())
 					}
 					_ => (0,self.last_line_number())
 				};
